@@ -99,8 +99,8 @@ SEEDS3 = {
  "C01-6": ("C01-2", "a list with a duplicate or null BEFORE an entity that occurs again later (u1 u1 u2 u3 u2): the de-duplicated batch index differs from the item index", "C01 quick", "missed as built - and the out-of-range panic it causes for other orders was SWALLOWED by the driver (a panic unwinding through the recorder's deferred Finish left a partial result that was merged as a normal shard): driver fixed; caught after S-ireq got lists with duplicates / nulls before a repeated entity"),
  "C07-5": ("C07-1", "a failure recognised only through the status fallback (non-2xx with a non-JSON body, or JSON with neither data nor errors) and a dependant with a nullable @requires input", "C07 quick", "missed as built; caught after adding the fault kinds http-502-html, http-500-json-other, http-200-json-other"),
  "C07-6": ("C07-2", "a fault at the fetch that provides a BOOLEAN field of an object that still exists (nil dereference in walkBoolean)", "C07 quick", "missed as built (no Boolean leaf in any model); caught after S-shapes got Boolean / Float / custom scalar leaves (crash = violation)"),
- "C08-5": ("C08-1", "ONE postprocess.Processor handling two plans in sequence (state leaking between plans)", "MISSED (author resumed)", "missed as built (fresh Processor per plan)"),
- "C08-6": ("C08-2", "a chain of four fetches whose ids are not in dependency order plus side branches (transitive closure only two levels deep)", "MISSED (author resumed)", "missed as built"),
+ "C08-5": ("C08-1", "ONE postprocess.Processor handling two plans in sequence (state leaking between plans)", "C08 quick", "missed as built (fresh Processor per plan); caught after the author added the family 'history' (every ordered pair of a 60-plan pool on ONE Processor, differential against a fresh one)"),
+ "C08-6": ("C08-2", "a chain of four fetches whose ids are not in dependency order plus side branches (transitive closure only two levels deep)", "C08 quick", "missed as built (quick stopped at 4 fetches, the shape needs 6); caught after the author extended quick to all 3.78 M labelled DAGs of 6 fetches in the waves mode"),
  "C09-5": ("C09-1", "the same request TEXT twice with different normalized operations (a @skip/@include variable that flips, one document with two operation names): plan cache keyed by the raw input", "C09 quick", "missed as built; caught after adding such requests to the history alphabet"),
  "C09-6": ("C09-2", "minification on, a subgraph operation > 140 bytes with the same inline fragment three times and the abstract field first", "C09 quick", "missed as built; caught after adding minifiable operations to the S-abs alphabet"),
  "C10-5": ("C10-1", "the writer's Flush fails on an incremental frame after the first frame was committed", "C10 quick", "missed as built (the writer never failed); caught after adding executions with a writer whose k-th flush fails"),
